@@ -1,10 +1,13 @@
 """C15 — same program, options and seed give identical scenes and runs in every process.
 Proof layer: coq/Properties/C15.v (model with adversarial container order, cost keys and RNG
-consumption).  Correspondence (multi-process): every (program, seed) is run in N fresh interpreter
-processes that differ in PYTHONHASHSEED, allocation pattern (object addresses), injected clock
-jitter (requirement order of the WeightedAcceptanceChecker) and in how scenes are requested
-(one by one, generateBatch, fresh checker per scene); the canonical dumps must be bit-identical,
-and the dependency tuple / order of random draws must equal the extracted model's prediction."""
+consumption; specifier resolution with the dependency set of every specifier presented in a hash-seed
+dependent order; private generators).  Correspondence (multi-process): every (program, seed) is run in
+several FRESH interpreter processes (hosts) that differ in PYTHONHASHSEED and allocation pattern (object
+addresses); each host imports Scenic once and forks one child per sub-variant (clock jitter = requirement
+order of the WeightedAcceptanceChecker, one by one / generateBatch / fresh checker per scene / BasicChecker /
+reversed order / a checker consuming the global generators, amount of randomness the requirement helper
+consumes); the canonical dumps must be bit-identical, and the dependency tuple, the order in which specifier
+resolution evaluated the user properties and the order of random draws must equal the extracted model's."""
 import concurrent.futures as cf
 import json
 import os
@@ -21,9 +24,12 @@ def hi(k):
     return 1 + (k + 1) / 100
 
 
-def gen_program(rng, idx):
+def gen_program(rng, idx, geom=False):
     m = rng.randint(4, 9)
     L = ["from verif_c15_helpers import burn"]
+    if geom:     # non-convex container: the containment check reaches trimesh.sample.volume_mesh (NumPy's global generator)
+        L += [f"hollow = BoxRegion(dimensions=(10, 10, 4)).difference(BoxRegion(dimensions=({rng.randint(3, 5)}, {rng.randint(3, 5)}, 6)))",
+              "workspace = Workspace(hollow)"]
     names = {}
     nodes = []          # model DAG: (is_random, children) in definition order
     label = []          # source name of each node
@@ -42,9 +48,9 @@ def gen_program(rng, idx):
     if has_beh:
         L += ["behavior B():", "    while True:", f"        take x{rng.randrange(m)} + Range(0, 1)", "        wait"]
     insts = []
-    nobj = rng.randint(1, 3)
+    nobj = rng.randint(1, 2) if geom else rng.randint(1, 3)
     for o in range(nobj):
-        spec = "at (Range(-6, 6), Range(-6, 6))"
+        spec = "in workspace, with requireVisible False" if geom else "at (Range(-6, 6), Range(-6, 6))"
         child = []
         if rng.random() < 0.4:
             c = rng.randrange(nval)
@@ -85,7 +91,163 @@ def gen_program(rng, idx):
         bindings.append(ks + [ego])
     beh = list(range(len(nodes))) if has_beh else []
     model = dict(nodes=nodes, insts=insts, params=params, bindings=bindings, beh=beh, nleaves=m, labels=label)
-    return dict(name=f"prog{idx}", src="\n".join(L) + "\n", names=names, model=model, has_beh=has_beh)
+    return dict(name=f"prog{idx}", kind="geom" if geom else "flat", src="\n".join(L) + "\n", names=names, model=model, has_beh=has_beh)
+
+
+RESERVED = set("""position width length height heading yaw pitch roll shape color speed velocity behavior name foo
+                  in at is as or if not and for def del try new ego of by to from with until do take wait""".split())
+
+
+def fresh_name(rng, used):
+    while True:
+        n = "".join(rng.choice("abcdefghijklmnopqrstuvwxyz") for _ in range(rng.randint(1, 4))) + rng.choice(["", "", "_a", "Z", "9"])
+        n = rng.choice("pqkuvz") + n
+        if n not in used and n not in RESERVED:
+            used.add(n)
+            return n
+
+
+def gen_class_program(rng, idx):
+    """A user class whose property defaults form a random dependency DAG (`total: self.alpha + self.beta`), written in
+    random order (dependents before or after what they depend on), optionally a subclass overriding some of them and
+    `with` specifiers overriding others: the order in which specifier resolution evaluates the properties (DFS over the
+    sorted requiredProperties of every specifier) fixes the order in which the independent random properties draw."""
+    L = ["from verif_c15_helpers import burn"]
+    names, nodes, label = {}, [], []
+    nb = [0]
+
+    def new_range(lab):
+        k = nb[0]
+        nb[0] += 1
+        names[f"{0.0!r}:{float(hi(k))!r}"] = lab
+        nodes.append((1, []))
+        label.append(lab)
+        return f"Range(0, {hi(k)})", len(nodes) - 1
+
+    g = rng.randint(1, 3)
+    gl = []
+    for k in range(g):
+        e, n = new_range(f"x{k}")
+        L.append(f"x{k} = {e}")
+        gl.append(n)
+    used = set()
+    nleaf, nder = rng.randint(2, 5), rng.randint(1, 4)
+    props = [fresh_name(rng, used) for _ in range(nleaf + nder)]     # topological rank = index
+    defs = {}          # prop -> ("leaf", expr, node) | ("der", deps)
+
+    def derived(q_rank):
+        return rng.sample(props[:q_rank], min(q_rank, rng.choice([2, 2, 3, 3, 4])))
+
+    for r, q in enumerate(props):
+        if r < nleaf:
+            defs[q] = ("leaf",) + new_range(q)
+        else:
+            defs[q] = ("der", derived(r))
+
+    def body(q, d):
+        return f"    {q}: " + (d[1] if d[0] == "leaf" else " + ".join(f"self.{a}" for a in d[1]))
+    order = props[:]
+    rng.shuffle(order)
+    L.append("class Thing:")
+    L += [body(q, defs[q]) for q in order]
+    cls, class_order = "Thing", order
+    if rng.random() < 0.4:       # subclass: its definitions come first in the class's default list
+        over = rng.sample(props, rng.randint(1, 2))
+        sub_order = []
+        L.append("class Sub(Thing):")
+        for q in over:
+            r = props.index(q)
+            if r >= 2 and rng.random() < 0.6:
+                defs[q] = ("der", derived(r))
+            else:
+                defs[q] = ("leaf",) + new_range(q)
+            L.append(body(q, defs[q]))
+            sub_order.append(q)
+        cls, class_order = "Sub", sub_order + [q for q in order if q not in sub_order]
+    withs = []
+    spec = "at (Range(-6, 6), Range(-6, 6))"
+    for q in rng.sample(props, rng.randint(0, 2)):
+        if rng.random() < 0.7:
+            defs[q] = ("leaf",) + new_range(q)
+            spec += f", with {q} {defs[q][1]}"
+        else:
+            c = rng.choice(gl)
+            defs[q] = ("alias", None, c)
+            spec += f", with {q} {label[c]}"
+        withs.append(q)
+    # value nodes of the properties
+    pnode = {}
+    for q in props:
+        d = defs[q]
+        if d[0] in ("leaf", "alias"):
+            pnode[q] = d[2]
+    for q in props:           # ranks ascending: dependencies exist already
+        d = defs[q]
+        if d[0] == "der":
+            nodes.append((0, [pnode[a] for a in d[1]]))
+            label.append(q)
+            pnode[q] = len(nodes) - 1
+    for q in props:           # labels of overridden leaves that are no longer used stay in the DAG, unreferenced
+        pass
+    L.append(f"ego = new {cls} {spec}")
+    nodes.append((0, None))            # children filled in from the model's resolution order
+    label.append("ego")
+    ego = len(nodes) - 1
+    insts = [ego]
+    if rng.random() < 0.5:
+        L.append("o1 = new Object at (Range(-6, 6), Range(-6, 6))")
+        nodes.append((0, []))
+        label.append("o1")
+        insts.append(len(nodes) - 1)
+    ids = {q: i for i, q in enumerate(sorted(props))}        # nat order = Python's string order
+    specs = [([ids[q]], []) for q in withs]
+    specs += [([ids[q]], sorted(ids[a] for a in set(defs[q][1])) if defs[q][0] == "der" else []) for q in class_order if q not in withs]
+    weight = {}
+    for q in props:
+        weight[q] = sum(weight[a] for a in defs[q][1]) if defs[q][0] == "der" else 1
+    params, bindings = [], []
+    for j in range(rng.randint(0, 1)):
+        L.append(f"param p{j} = Range(0, 1)")
+    for j in range(rng.randint(1, 3)):
+        terms, bind, n_terms = [], [], 0
+        for _ in range(rng.randint(1, 3)):
+            if rng.random() < 0.6:
+                q = rng.choice(props)
+                terms.append(f"ego.{q}")
+                b = ego
+                n_terms += weight[q] - 1
+            else:
+                c = rng.choice(gl)
+                terms.append(label[c])
+                b = c
+            if b not in bind:
+                bind.append(b)
+            n_terms += 1
+        if rng.random() < 0.5:
+            terms[0] = f"burn({terms[0]})"
+        expr = " + ".join(terms)
+        kind = rng.choice(["require", "require", "soft", "record"])
+        if kind == "require":
+            L.append(f"require {expr} < {round(n_terms * rng.choice([0.5, 0.6, 0.75]), 2)}")
+        elif kind == "soft":
+            L.append(f"require[{rng.choice([0.3, 0.6, 0.9])}] {expr} > {round(0.2 * n_terms, 2)}")
+        else:
+            L.append(f"record initial ({expr}) as rec{j}")
+        if ego not in bind:
+            bind.append(ego)
+        bindings.append(bind)
+    multi = sum(1 for q in props if defs[q][0] == "der" and len(set(defs[q][1])) >= 2)
+    model = dict(nodes=nodes, insts=insts, params=params, bindings=bindings, beh=[], labels=label,
+                 resolve=dict(obj=ego, specs=specs, pnode={str(ids[q]): pnode[q] for q in props}, pname={str(ids[q]): q for q in props}))
+    return dict(name=f"prog{idx}", kind="class", src="\n".join(L) + "\n", names=names, model=model, has_beh=False,
+                uprops=props, multi=multi)
+
+
+def res_cmd(rs):
+    t = ["RES", str(len(rs["specs"]))]
+    for ps, rq in rs["specs"]:
+        t += [str(len(ps))] + [str(x) for x in ps] + [str(len(rq))] + [str(x) for x in rq]
+    return " ".join(t)
 
 
 def model_cmd(md):
@@ -111,12 +273,40 @@ def f2_witness():
     nodes = [(1, []) for _ in range(m)] + [(0, [])]
     model = dict(nodes=nodes, insts=[m], params=[], bindings=[[0, 1, 2, m], [3, 4, m], [5, m]], beh=[], nleaves=m,
                  labels=[f"x{k}" for k in range(m)] + ["ego"])
-    return dict(name="prog-f2", src="\n".join(L) + "\n", names=names, model=model, has_beh=False)
+    return dict(name="prog-f2", kind="flat", src="\n".join(L) + "\n", names=names, model=model, has_beh=False)
 
 
-VARIANTS = [  # (variant id, PYTHONHASHSEED, mode)
-    (0, "0", "sequential"), (1, "1", "sequential"), (2, "12345", "sequential"),
-    (3, "4242424242", "sequential"), (4, "77", "batch"), (5, "31337", "fresh-checker")]
+def spec_witness():
+    """Fixed second case: a property default that needs two independently random properties defined after it."""
+    L = ["class Thing:", "    total: self.beta + self.alpha + self.gamma", f"    gamma: Range(0, {hi(0)})", f"    beta: Range(0, {hi(1)})",
+         f"    alpha: Range(0, {hi(2)})", "ego = new Thing at (Range(-5, 5), Range(-5, 5))", "require ego.total > 0.4"]
+    names = {f"{0.0!r}:{float(hi(k))!r}": n for k, n in enumerate(["gamma", "beta", "alpha"])}
+    nodes = [(1, []), (1, []), (1, []), (0, [1, 2, 0]), (0, None)]
+    rs = dict(obj=4, specs=[([3], [0, 1, 2]), ([2], []), ([1], []), ([0], [])], pnode={"0": 2, "1": 1, "2": 0, "3": 3},
+              pname={"0": "alpha", "1": "beta", "2": "gamma", "3": "total"})
+    model = dict(nodes=nodes, insts=[4], params=[], bindings=[[4]], beh=[], labels=["gamma", "beta", "alpha", "total", "ego"], resolve=rs)
+    return dict(name="prog-spec", kind="class", src="\n".join(L) + "\n", names=names, model=model, has_beh=False,
+                uprops=["total", "gamma", "beta", "alpha"], multi=1)
+
+
+# sub-variants run as forked children of a host: how scenes are requested, clock jitter (0 = the real clock), how much
+# burn() consumes per call while a scene is generated, whether the checker itself consumes the global generators
+SUBS = [
+    dict(mode="sequential", jitter=0, burn=1, noisy=0, full_log=True),
+    dict(mode="sequential", jitter=11, burn=0, noisy=0, full_log=True),
+    dict(mode="batch", jitter=12, burn=1, noisy=0),
+    dict(mode="sequential", jitter=13, burn=1, noisy=3),
+    dict(mode="sequential", jitter=14, burn=2, noisy=0),
+    dict(mode="fresh-checker", jitter=15, burn=1, noisy=0),
+    dict(mode="basic", jitter=0, burn=2, noisy=0),
+    dict(mode="reverse", jitter=0, burn=0, noisy=0),
+    dict(mode="sequential", jitter=16, burn=1, noisy=0),
+    dict(mode="batch", jitter=17, burn=0, noisy=2),
+    dict(mode="fresh-checker", jitter=18, burn=0, noisy=1),
+    dict(mode="sequential", jitter=19, burn=3, noisy=0),
+]
+HASHSEEDS = ["0", "1", "12345", "4242424242", "77", "31337", "2", "3", "99", "1000003", "65537", "424242", "7", "123456789", "555",
+             "8191", "271828", "314159", "42", "1729", "6", "2147483647", "4294967295", "1001"]
 
 
 def first_diff(a, b, path=""):
@@ -156,107 +346,152 @@ def named_first_iteration(log, names):
 
 def main():
     c = Check(PID, "proof")
-    c.cov["rule"] = ("generated programs with 4-9 named random values referenced from objects, params, hard/soft requirements, "
-                     "terminate/record conditions and behaviours (some only from requirements), 1-3 colliding objects and a "
-                     "requirement helper that consumes the global RNG while checking; each (program, seed) runs in 6 fresh processes "
-                     "(different PYTHONHASHSEED, allocation pattern, clock jitter; sequential / generateBatch / fresh checker), 6 scenes "
-                     "each + a DummySimulator run; a case is non-trivial when at least one scene needed more than one iteration and "
-                     "at least two random values are referenced only from requirements")
+    c.cov["rule"] = ("generated programs of three kinds: (flat) 4-9 named random values referenced from objects, params, hard/soft requirements, "
+                     "terminate/record conditions and behaviours (some only from requirements), 1-3 colliding objects; (class) a user class whose "
+                     "property defaults form a random dependency DAG over independently random properties, written in random order, with "
+                     "subclass and `with` overrides; (geom) objects in a non-convex mesh workspace whose containment check draws from NumPy's "
+                     "global generator; requirement helper burn() consumes the global RNG while checking. Each (program, seed) runs in "
+                     "3 (quick) / 8 (thorough) fresh interpreters with different PYTHONHASHSEED and allocation pattern, each forking 4 / 3 "
+                     "sub-variant children (clock jitter, sequential / generateBatch / fresh checker / BasicChecker / reversed / RNG-consuming "
+                     "checker, burn amount 0-3), 6 scenes each + a DummySimulator run; a case is non-trivial when at least one scene needed "
+                     "more than one iteration and (two or more random values are referenced only from requirements, or a property default "
+                     "needs two or more properties, or the container is non-convex)")
     common.ensure_parser()
     if not c.proofs():
         c.finish()
     exe = common.build_ocaml(PID)
     quick = c.tier == "quick"
     rng = c.rng
-    nprog, nseeds, variants = (12, 2, VARIANTS) if quick else (120, 3, VARIANTS + [(v, str(1000 + v), "sequential") for v in range(6, 24)])
+    nprog, nseeds, nhosts, npersub, nshards = (18, 2, 3, 4, 5) if quick else (120, 3, 8, 3, 8)
     nprog = int(os.environ.get("VERIF_C15_NPROG", nprog))   # development aid (self-tests on a loaded machine)
-    progs = [f2_witness()] + [gen_program(rng, i) for i in range(nprog - 1)]
-    jobs = []
-    for p in progs:
-        for s in range(nseeds):
-            seed = rng.randint(0, 10 ** 6)
-            for (v, hs, mode) in variants:
-                jobs.append((p, seed, v, hs, mode))
+    workers = min(int(os.environ.get("VERIF_WORKERS", 16)), common.NCPU)
+    progs = [f2_witness(), spec_witness()][:nprog]
+    for i in range(nprog - len(progs)):
+        progs.append(gen_class_program(rng, i) if i % 5 in (1, 3) else gen_program(rng, i, geom=(i % 5 == 4)))
+    cases = [(p, rng.randint(0, 10 ** 6)) for p in progs for _ in range(nseeds)]
     if c.replay:
         body = json.load(open(c.replay))
         case = body.get("case", {})
         if "program" in case:
-            p = case["program"]
-            jobs = [(p, case["seed"], v, hs, mode) for (v, hs, mode) in variants]
-            progs = [p]
+            cases = [(case["program"], case["seed"])]
+            progs = [case["program"]]
+    nshards = max(1, min(nshards, len(cases)))
 
-    def run(j):
-        p, seed, v, hs, mode = j
-        payload = dict(name=p["name"], src=p["src"], names=p["names"], seed=seed, nscenes=6, mode=mode,
-                       simulate=(mode != "batch"), full_log=(v <= 1), steps=4, maxIterations=3000)
+    hosts = []         # (shard, host index, hashseed, variant, [case index])
+    for s in range(nshards):
+        idx = list(range(s, len(cases), nshards))
+        for h in range(nhosts):
+            hosts.append((s, h, HASHSEEDS[(s * nhosts + h) % len(HASHSEEDS)], s * nhosts + h, idx))
+
+    def subs_of(h):
+        out = []
+        for t in range(npersub):
+            k = (h * npersub + t) % len(SUBS)
+            out.append(dict(SUBS[k], id=k, alloc=h * npersub + t))
+        return out
+
+    def run(host):
+        s, h, hs, variant, idx = host
+        tasks = []
+        for ci in idx:
+            p, seed = cases[ci]
+            tasks.append(dict(name=p["name"], src=p["src"], names=p["names"], uprops=p.get("uprops", []), seed=seed, nscenes=6,
+                              simulate=True, steps=4, maxIterations=3000, subs=subs_of(h)))
         try:
-            return common.run_impl("impl_c15.py", payload, timeout=600, hashseed=hs, extra_env={"VERIF_VARIANT": str(v)})
+            r = common.run_impl("impl_c15.py", dict(tasks=tasks), timeout=900 if quick else 2400, hashseed=hs,
+                                extra_env={"VERIF_VARIANT": str(variant)})
+            return r["results"]
         except Exception as e:
-            return dict(crash=str(e)[-1500:])
+            return [[dict(crash=str(e)[-1500:]) for _ in subs_of(h)] for _ in idx]
 
-    with cf.ThreadPoolExecutor(min(8, common.NCPU)) as ex:
-        results = list(ex.map(run, jobs))
+    with cf.ThreadPoolExecutor(workers) as ex:
+        host_results = list(ex.map(run, hosts))
+    c.hist("fresh-interpreters", len(hosts))
 
-    # ---- model predictions for the dependency tuple and the order of draws
+    # ---- model predictions: specifier resolution order, dependency tuple, order of draws
     pred = {}
+    cls = [p for p in progs if p["model"].get("resolve")]
+    for p, o in zip(cls, common.run_driver(exe, [res_cmd(p["model"]["resolve"]) for p in cls])):
+        rs = p["model"]["resolve"]
+        order = [] if o.strip() == "-" else [x.strip() for x in o.strip().split(",")]
+        p["model"]["nodes"][rs["obj"]] = (0, [rs["pnode"][x] for x in order])
+        pred[p["name"]] = dict(proporder=[rs["pname"][x] for x in order])
     outs = common.run_driver(exe, [model_cmd(p["model"]) for p in progs])
     for p, o in zip(progs, outs):
         deps_s, log_s = [x.strip() for x in o.split("|")]
-        m = p["model"]["nleaves"]
+        md = p["model"]
         deps = [] if deps_s == "-" else [int(x) for x in deps_s.split(",")]
         log = [] if log_s == "-" else [int(x) for x in log_s.split(",")]
-        pred[p["name"]] = dict(deps=[f"x{i}" for i in deps if i < m], draws=[f"x{i}" for i in log if i < m])
+        pred.setdefault(p["name"], {}).update(deps=[md["labels"][i] for i in deps if md["nodes"][i][0]], draws=[md["labels"][i] for i in log])
 
     groups = {}
-    for j, r in zip(jobs, results):
-        groups.setdefault((j[0]["name"], j[1]), []).append((j, r))
-    for (pname, seed), grp in groups.items():
-        p = grp[0][0][0]
+    for host, hres in zip(hosts, host_results):
+        s, h, hs, variant, idx = host
+        for ci, row in zip(idx, hres):
+            for sub, r in zip(subs_of(h), row):
+                groups.setdefault(ci, []).append((dict(host=variant, hashseed=hs, **sub), r))
+    for ci in sorted(groups):
+        grp = groups[ci]
+        p, seed = cases[ci]
+        pname = p["name"]
         case = dict(program=p, seed=seed)
-        crashed = [(j[2], r["crash"]) for j, r in grp if "crash" in r]
+        crashed = [(d, r["crash"]) for d, r in grp if "crash" in r]
         if crashed:
-            c.violation("harness", "implementation driver crashed", dict(case, crashes=crashed), no_input=True)
+            c.violation("harness", "implementation driver crashed", dict(case, crashes=crashed[:3]), no_input=True)
             continue
-        base_j, base = grp[0]
+        base_d, base = grp[0]
         its = [s.get("iterations") for s in base["scenes"]]
         md = p["model"]
         req_only = set()
         for b in md["bindings"]:
-            req_only.update(x for x in b if x < md["nleaves"])
+            req_only.update(x for x in b if md["nodes"][x][0])
         for ch in [n[1] for n in md["nodes"]] + [md["params"]]:
             req_only.difference_update(ch)
-        c.count((p["src"], seed), nontrivial=(any(i and i > 1 for i in its) and len(req_only) >= 2))
+        rejected = any(i and i > 1 for i in its)
+        c.count((p["src"], seed), nontrivial=(rejected and (len(req_only) >= 2 or p.get("multi", 0) >= 1 or p["kind"] == "geom")))
         c.cov["evaluations"] += len(grp) - 1
         c.cov["traces_validated_against_impl"] += len(grp)
+        c.hist("kind:" + p["kind"])
         c.hist("programs:behaviour" if p["has_beh"] else "programs:static")
         c.hist("req-only-values:" + str(min(len(req_only), 4)))
+        if p["kind"] == "class":
+            c.hist("class:multi-dependency-defaults:" + str(min(p.get("multi", 0), 3)))
         c.hist("iterations-total:" + ("1" if sum(i or 0 for i in its) == len(its) else ">1"))
+        if any(r.get("consumed", {}).get("consuming_rejected") for _, r in grp):
+            c.hist("cases-where-a-check-consumed-global-rng-on-a-rejected-candidate")
+        if any(r.get("consumed", {}).get("consuming_rejected") for d, r in grp if not d["noisy"] and not d["burn"]):
+            c.hist("cases-where-scenic-itself-consumed-global-rng-on-a-rejected-candidate")
         if base.get("rejection"):
             c.hist("rejection-exhausted")
-        # (1) model vs implementation: dependency tuple and draw order
+        # (1) model vs implementation: specifier resolution order, dependency tuple and draw order
         mp = pred[pname]
+        if "proporder" in mp and base["prop_orders"][0] != mp["proporder"]:
+            c.violation("model-proporder", "the order in which specifier resolution evaluated the user properties of the object differs from the "
+                        "model's DFS over sorted requiredProperties", dict(case, impl=base["prop_orders"][0], model=mp["proporder"], variant=base_d))
         if base["deps_named"] != mp["deps"]:
             c.violation("model-deps", "the order of the named random values in Scenario.dependencies differs from the model's dependency tuple",
-                        dict(case, impl=base["deps_named"], model=mp["deps"], variant=base_j[2]))
+                        dict(case, impl=base["deps_named"], model=mp["deps"], variant=base_d))
         fi = named_first_iteration(base["scenes"][0].get("log") if base["scenes"] else None, p["names"])
         if base["scenes"] and fi != mp["draws"]:
             c.violation("model-draws", "the order in which the named random values are drawn differs from the model's sampleAll",
-                        dict(case, impl=fi, model=mp["draws"], variant=base_j[2]))
+                        dict(case, impl=fi, model=mp["draws"], variant=base_d))
         # (2) all processes agree
-        for j, r in grp[1:]:
-            v, mode = j[2], j[4]
+        for d, r in grp[1:]:
+            mode = d["mode"]
             what = None
-            if r["compile_log"] != base["compile_log"]:
+            if r["compile_log"] != base["compile_log"] or r["compile_rng"] != base["compile_rng"]:
                 what = "random calls made while compiling differ"
+            elif r["prop_orders"] != base["prop_orders"]:
+                what = "the order in which the properties of an object were resolved differs between processes"
             elif r["deps_named"] != base["deps_named"]:
                 what = "the order of Scenario.dependencies differs between processes"
             elif r.get("rejection") != base.get("rejection") or len(r["scenes"]) != len(base["scenes"]):
                 what = "one process exhausted its iterations, another did not"
             else:
                 for k, (a, b) in enumerate(zip(base["scenes"], r["scenes"])):
-                    d = first_diff(a["scene"], b["scene"], f"scene[{k}]")
-                    if d:
-                        what = f"scenes differ at {d}"
+                    dd = first_diff(a["scene"], b["scene"], f"scene[{k}]")
+                    if dd:
+                        what = f"scenes differ at {dd}"
                         break
                     if mode != "batch":
                         for key in ("iterations", "log_sha", "rng_after"):
@@ -265,28 +500,35 @@ def main():
                                 break
                     if what:
                         break
-                if not what and mode == "batch" and r.get("batch_iterations") != sum(s["iterations"] for s in base["scenes"]):
-                    what = "generateBatch used a different total number of iterations"
+                if not what and mode == "batch" and not base.get("rejection"):
+                    if r.get("batch_iterations") != sum(s["iterations"] for s in base["scenes"]):
+                        what = "generateBatch used a different total number of iterations"
+                    elif base["scenes"] and r.get("batch_rng_after") != base["scenes"][-1]["rng_after"]:
+                        what = "the RNG state after generateBatch differs from the state after generating the scenes one by one"
                 if not what and mode != "batch":
-                    d = first_diff(base.get("sim"), r.get("sim"), "sim")
-                    if d:
-                        what = f"simulation results differ at {d}"
+                    dd = first_diff(base.get("sim"), r.get("sim"), "sim")
+                    if dd:
+                        what = f"simulation results differ at {dd}"
             c.hist(f"mode:{mode}")
             if what:
-                c.violation("nondeterminism", "two fresh processes with the same program and seed disagree: " + what,
-                            dict(case, variant_a=dict(id=base_j[2], hashseed=base_j[3], mode=base_j[4], deps=base["deps_named"], checker_order=base.get("checker_order")),
-                                 variant_b=dict(id=v, hashseed=j[3], mode=mode, deps=r["deps_named"], checker_order=r.get("checker_order")),
-                                 what=what, deps_order_differs=(r["deps_named"] != base["deps_named"])))
+                c.violation("nondeterminism", "two processes with the same program and seed disagree: " + what,
+                            dict(case, variant_a=dict(base_d, deps=base["deps_named"], prop_orders=base["prop_orders"], checker_order=base.get("checker_order")),
+                                 variant_b=dict(d, deps=r["deps_named"], prop_orders=r["prop_orders"], checker_order=r.get("checker_order")),
+                                 what=what, deps_order_differs=(r["deps_named"] != base["deps_named"]),
+                                 same_interpreter=(d["host"] == base_d["host"]),
+                                 differs_in=sorted(k for k in ("hashseed", "mode", "jitter", "burn", "noisy") if d[k] != base_d[k])))
         orders = {json.dumps(r.get("checker_order")) for _, r in grp}
         c.hist("distinct-checker-orders:" + str(min(len(orders), 4)))
-        c.sample(dict(program=p["src"], seed=seed, deps=base["deps_named"], iterations=its,
-                      checker_orders=sorted(orders)[:3]), limit=4)
+        c.sample(dict(program=p["src"], seed=seed, deps=base["deps_named"], iterations=its, prop_order=base["prop_orders"][:1],
+                      checker_orders=sorted(orders)[:3]), limit=5)
     c.assumptions += [
         "the OS allocator and hash function are abstracted as 'any permutation of the container'; NumPy's generator is covered only "
         "by the state fingerprint after every scene",
-        "the RNG is an abstract stream with a cursor; save/restore is the model's [restore]",
-        "process variation actually exercised is bounded by the 6 (quick) / 24 (thorough) variants per case",
-        "extraction via ExtrOcamlBasic only; OCaml compiler; 40-line driver",
+        "the RNG is an abstract stream with a cursor; save/restore is the model's [restore]; a private generator is a separate record",
+        "hash-seed / address-layout variation actually exercised is bounded by the 3 (quick) / 8 (thorough) fresh interpreters per case; "
+        "the other sub-variants are forked children of those interpreters (fork after importing scenic, before compiling)",
+        "specifier resolution is modelled without modifying specifiers; the model is compared on user-defined properties only",
+        "extraction via ExtrOcamlBasic only; OCaml compiler; 50-line driver",
     ]
     c.finish()
 
